@@ -196,6 +196,10 @@ def run_one(world, atoms, goal_names, routine, strategy, mixin, prestate):
     m = world.m
     cls = BruteSUAOptimizer if mixin == "sua" else BruteIncrementalOptimizer
     opt = cls(env, QF_UFLIRA, dom=world.dom)
+    if prestate.endswith("-last"):
+        # the oracle answers with the last model instead of the first: another search trajectory
+        opt.native.model_order = "last"
+        prestate = prestate[:-5]
     case = Case(world, atoms, prestate)
     goals = []
     for gn in goal_names:
@@ -430,7 +434,7 @@ def run_shard(args):
                         if strategy == "binary" and any(g.endswith("real") for g in gs):
                             continue      # bisection over real-valued objectives is not claimed
                         for mixin in ("sua", "inc"):
-                            for prestate in ("empty", "pushed"):
+                            for prestate in ("empty", "pushed", "empty-last"):
                                 res.count("evaluations")
                                 bad = run_one(world, atoms, gs, routine, strategy, mixin, prestate)
                                 res.outcome("%s:%s" % (routine, "ok" if bad is None else bad[0]))
